@@ -122,6 +122,13 @@ Goal exists arrivals pd v,
     rv_dom v = true /\ rv_known v = None /\ rv_imported v = true.
 Proof. exact Props.C14.C14_imports_complete_nonvacuous. Qed.
 Print Assumptions Props.C14.C14_imports_complete_nonvacuous.
+Goal one_generated_name (Proofs.C14Main.c14_infos uc_exec [] Proofs.C14Witness.ws_two_names) (lit "a") (lit "A2") = false /\
+  renamed_in (Proofs.C14Main.c14_infos uc_exec [] Proofs.C14Witness.ws_two_names) (lit "a") (lit "A2") = lit "A2" /\
+  Proofs.C14Witness.w_run (fun l => l) (fun l => l) Proofs.C14Witness.ws_two_names (lit "my_crate") =
+    Some ([(lit "a", lit "A2Other")], [(lit "A2", lit "a", false, None, false)]) /\
+  Proofs.C14Witness.w_field_types Proofs.C14Witness.ws_two_names (lit "my_crate") = [RSimple (lit "A2Other")].
+Proof. exact Props.C14.C14_two_generated_names_outside_domain. Qed.
+Print Assumptions Props.C14.C14_two_generated_names_outside_domain.
 Goal renamed_in (Proofs.C14Main.c14_infos uc_exec [] Proofs.C14Witness.ws_glob_renamed) (lit "a") (lit "A2") = lit "A2Renamed" /\
   exists arrivals pd v,
     parse_workspace uc_exec [] [] (fun l => l) Proofs.C14Witness.ws_glob_renamed = Ok arrivals /\
